@@ -5,37 +5,16 @@
    Ghost `live`: remaining life of every accepted subscription, from the inputs alone.      *)
 EXTENDS MonAnn
 
-MonInit(cfg) ==
-  LifeInit(cfg) @@ [ sess |-> <<>>,      \* <<src, mc>> -> <<flag, id>>
-                     live |-> <<>>,      \* <<inst, src, key>> -> remaining life
-                     last |-> <<>> ]     \* <<inst, src, key>> -> "subscribed" / "unsubscribed"
-SubKey(x) == <<x.svc, x.eg, x.ctr, x.eps>>
-Kill(m, P(_)) == [m EXCEPT !.live = [k \in DOMAIN @ |-> IF P(k) THEN 0 ELSE @[k]]]
+MonInit(cfg) == LifeInit(cfg) @@ GhostInit @@ [last |-> <<>>]     \* <<inst, src, key>> -> "subscribed" / "unsubscribed"
 
-RECURSIVE SetLive(_, _, _)
-SetLive(m, ks, v) == IF ks = {} THEN m ELSE LET k == CHOOSE k \in ks : TRUE IN SetLive([m EXCEPT !.live = Put(@, k, v)], ks \ {k}, v)
-
-Entry(m, src, en) ==
-  IF en.ty # "sub" THEN m
-  ELSE LET hit == {i \in Announced(m) : m.run[i] /\ SubMatches(m, i, en)}
-           ks  == {<<i, src, SubKey(en)>> : i \in hit}
-       IN IF en.ttl = 0 THEN SetLive(m, ks, 0)
-          ELSE IF m.cl THEN m                                  \* will be wiped by the pending connection loss
-          ELSE SetLive(m, {k \in ks : ~Rejected(m, en) \/ Get(m.live, k, 0) > 0}, en.ttl)
 RECURSIVE Entries(_, _, _)
-Entries(m, src, es) == IF es = <<>> THEN m ELSE Entries(Entry(m, src, Head(es)), src, Tail(es))
-
-Rx(m, e) ==
-  LET k    == <<e.src, e.mc>>
-      reb  == k \in DOMAIN m.sess /\ e.rb /\ (~m.sess[k][1] \/ m.sess[k][2] >= e.sid)
-      m1   == [m EXCEPT !.sess = Put(@, k, <<e.rb, e.sid>>)]
-      m2   == IF reb THEN Kill(m1, LAMBDA x : x[2] = e.src) ELSE m1      \* applied before the entries of that message
-  IN IF e.uc /\ ~e.mc THEN Entries(m2, e.src, e.es) ELSE m2
+Entries(m, src, es) == IF es = <<>> THEN m ELSE Entries(GEntry(m, src, Head(es)), src, Tail(es))
+Rx(m, e) == LET m2 == GReboot(m, e) IN IF e.uc /\ ~e.mc THEN Entries(m2, e.src, e.es) ELSE m2
 
 Api(m, e) ==
   LET z  == Stops(m, e)
-      m1 == Kill(Life(m, e), LAMBDA x : x[1] \in z)
-  IN IF e.op = "connlost" THEN Kill(m1, LAMBDA x : TRUE) ELSE m1
+      m1 == GKill(Life(m, e), LAMBDA x : x[1] \in z)
+  IN IF e.op = "connlost" THEN GKill(m1, LAMBDA x : TRUE) ELSE m1
 
 Notify(m, e) ==
   LET k == <<e.inst, e.src, SubKey(e.sub)>>  was == Get(m.last, k, "unsubscribed") IN
@@ -53,9 +32,11 @@ Idle(m0) ==
      THEN Fail(m, "idle_subscribed_but_not_live")
      ELSE IF \E k \in K : Get(m.last, k, "unsubscribed") # "subscribed" /\ Get(m.live, k, 0) > 0
      THEN Fail(m, "idle_live_but_not_subscribed")
-     ELSE m
+     \* an ambiguous entry (see MonAnn) is settled by what the implementation reports
+     ELSE [m EXCEPT !.live = [k \in DOMAIN @ |-> IF @[k] >= 0 THEN @[k]
+                                                ELSE IF Get(m.last, k, "unsubscribed") = "subscribed" THEN 0 - @[k] ELSE 0]]
 
-Adv(m, d) == [m EXCEPT !.live = [k \in DOMAIN @ |-> IF @[k] = FOREVER \/ @[k] = 0 THEN @[k] ELSE IF @[k] > d THEN @[k] - d ELSE 0]]
+Adv(m, d) == GAdv(m, d)
 
 MonStep(m0, e) ==
   LET m == [m0 EXCEPT !.n = @ + 1] IN
